@@ -52,6 +52,7 @@ const (
 	LElem                     // element of an element array (slice backing / heap array)
 	LFieldElem                // element of an array-typed field
 	LLocal                    // local cell
+	LGlobal                   // package-level variable
 )
 
 type Loc struct {
@@ -62,6 +63,7 @@ type Loc struct {
 	Arr   string       // LElem: array ref
 	Idx   string       // LElem/LFieldElem: index
 	Local *ssa.Alloc   // LLocal
+	Name  string       // LGlobal
 	T     types.Type   // pointee type (resolved)
 }
 
@@ -395,7 +397,7 @@ func (c *Ctx) freshVal(prefix string, t types.Type) Val {
 func (c *Ctx) components(v Val) [][2]string {
 	switch v.K {
 	case KScalar, KUnit, KArray:
-		if v.T == nil {
+		if v.T == nil || v.Srt != "" {
 			return [][2]string{{v.Srt, v.S}}
 		}
 		return [][2]string{{c.sortOf(v.T), v.S}}
